@@ -438,11 +438,12 @@ theorem facts_wildcardHostname :
     graphWildcardHostname = String.ofList NGF.Hostname.wildcardHostname ∧
     dataplaneWildcardHostname = String.ofList NGF.NginxEval.catchAll := by decide
 
-/-- attachment reads the parentRef's sectionName and the listener's allowedRoutes.namespaces -/
+/-- attachment reads the parentRef's sectionName and the listener's allowedRoutes.namespaces; a route whose Namespace
+object is unknown is not allowed by a Selector listener (commit d734bd5; the oracle's `nsAllowed` says the same) -/
 theorem facts_attachment :
     validateParentRefSectionArg = "getSectionName(ref.SectionName)" ∧
     isRouteNamespaceAllowedStmts =
-      ["if listener.Source.AllowedRoutes != nil && listener.Source.AllowedRoutes.Namespaces != nil { switch *listener.Source.AllowedRoutes.Namespaces.From { case v1.NamespacesFromAll: return true case v1.NamespacesFromSame: return routeNS == gwNS case v1.NamespacesFromSelector: if listener.AllowedRouteLabelSelector == nil { return false } ns, exists := namespaces[types.NamespacedName{Name: routeNS}] if !exists { panic(fmt.Errorf(\"route namespace %q not found in map\", routeNS)) } return listener.AllowedRouteLabelSelector.Matches(labels.Set(ns.Labels)) } }",
+      ["if listener.Source.AllowedRoutes != nil && listener.Source.AllowedRoutes.Namespaces != nil { switch *listener.Source.AllowedRoutes.Namespaces.From { case v1.NamespacesFromAll: return true case v1.NamespacesFromSame: return routeNS == gwNS case v1.NamespacesFromSelector: if listener.AllowedRouteLabelSelector == nil { return false } ns, exists := namespaces[types.NamespacedName{Name: routeNS}] if !exists { return false } return listener.AllowedRouteLabelSelector.Matches(labels.Set(ns.Labels)) } }",
        "return true"] ∧
     findAttachableListenersStmts =
       ["if sectionName != \"\" { for _, l := range listeners { if l.Name == sectionName { if l.Attachable { return []*Listener{l}, true } return nil, true } } return nil, false }",
